@@ -1353,7 +1353,11 @@ impl Writer {
               "We were asked to send datafrags meant for the reader {single_reader_guid:?} to a \
                different reader {reader_guid:?}. Not gonna happen."
             );
-            return;
+            // Drop the request. If it stayed on record, the repair timer would re-arm
+            // itself forever and no later fragment request of this reader would
+            // ever be served, because the lowest requested sample is always tried first.
+            reader_proxy.mark_frag_sent(seq_num, &frag_num);
+            continue;
           }
         }
 
